@@ -539,6 +539,44 @@ CONTROLS += [
                 ns = NamespaceScope(name)
                 parent_ns.namespaces[name] = ns''', '''            ns = NamespaceScope(name)
             parent_ns.namespaces[name] = ns''')),
+    neg("namespace lookup by setdefault with an eagerly built scope",
+        (S, '''            ns = parent_ns.namespaces.get(name)
+            if ns is None:
+                ns = NamespaceScope(name)
+                parent_ns.namespaces[name] = ns''', '''            ns = parent_ns.namespaces.setdefault(name, NamespaceScope(name))''')),
+    neg("namespace lookup by subscript and KeyError",
+        (S, '''            ns = parent_ns.namespaces.get(name)
+            if ns is None:
+                ns = NamespaceScope(name)
+                parent_ns.namespaces[name] = ns''', '''            try:
+                ns = parent_ns.namespaces[name]
+            except KeyError:
+                ns = parent_ns.namespaces[name] = NamespaceScope(name)''')),
+    pos("new namespace scope filed under the full dotted name", ["C12"], ["R12.4"],
+        (S, '''            ns = parent_ns.namespaces.get(name)
+            if ns is None:
+                ns = NamespaceScope(name)
+                parent_ns.namespaces[name] = ns''', '''            ns = parent_ns.namespaces.get(name)
+            if ns is None:
+                ns = NamespaceScope(name)
+                parent_ns.namespaces["::".join(names)] = ns''')),
+    pos("namespace lookup starts at the global scope", ["C12"], ["R12.4"],
+        (S, '''        parent_ns = state.parent.user_data
+
+        ns = None''', '''        parent_ns = self.data.namespace
+
+        ns = None''')),
+    pos("block bound to the outermost component", ["C12"], ["R12.4"],
+        (S, '''            ns = parent_ns.namespaces.get(name)
+            if ns is None:
+                ns = NamespaceScope(name)
+                parent_ns.namespaces[name] = ns''', '''            ns = parent_ns.namespaces.get(name)
+            if ns is None:
+                ns = NamespaceScope(name)
+                parent_ns.namespaces[name] = ns
+            if name is names[0]:
+                state.user_data = ns'''), (S, '''        state.user_data = ns
+        return None''', '''        return None''')),
     pos("module-level counter", ["C12", "C15"], ["R12.6", "R15.1"],
         (P, '''LexTokenList = typing.List[LexToken]''', '''LexTokenList = typing.List[LexToken]
 _anon = [0]'''), (P, '''                self.anon_id += 1
